@@ -849,6 +849,9 @@ func UnmarshalGenericNode(value *yaml.Node) (Type, error) {
 				if err != nil {
 					return nil, err
 				}
+				if typeArg == nil {
+					return nil, parseError(v, "a type argument cannot be null")
+				}
 
 				simpleType.TypeArguments = append(simpleType.TypeArguments, typeArg)
 			} else {
@@ -856,6 +859,9 @@ func UnmarshalGenericNode(value *yaml.Node) (Type, error) {
 					typeArg, err := UnmarshalTypeYAML(c)
 					if err != nil {
 						return nil, err
+					}
+					if typeArg == nil {
+						return nil, parseError(c, "a type argument cannot be null")
 					}
 
 					simpleType.TypeArguments = append(simpleType.TypeArguments, typeArg)
